@@ -25,7 +25,7 @@ STRINGS = {
     "mb2": ["ğü", "çöş", "ñandú", "ärger"],
     "mb3": ["日本", "€uro", "한국"],
     "sym4": ["😀", "𝛑"],
-    "casey": ["İzmir", "straße", "ǅem", "İİİ", "ßßß"],
+    "casey": ["İzmir", "straße", "ǅem", "İİİ", "ßßß", "sıkı", "ılık", "\u212a\u212a", "ſſ"],
     "zone": ["EST", "utc", "GMT+5:30"],
     "month": ["march", "ocak", "Dec"],
 }
